@@ -262,6 +262,11 @@ func (w *wr) auth(depth int, a Auth) {
 			w.line(depth+1, "type: %s", w.q(a.Scheme))
 		}
 		w.line(depth+1, "credentials: %s", w.q(a.Secret))
+	case "satoken": // the in-cluster service-account token, as kubernetes jobs use it
+		w.line(depth, "bearer_token_file: /var/run/secrets/kubernetes.io/serviceaccount/token")
+	case "sacreds":
+		w.line(depth, "authorization:")
+		w.line(depth+1, "credentials_file: /var/run/secrets/kubernetes.io/serviceaccount/token")
 	case "oauth2":
 		w.line(depth, "oauth2:")
 		w.line(depth+1, "client_id: %s", w.q(a.User))
